@@ -518,7 +518,7 @@ func validateAlias(log logger.Log, fs fs.FS, alias map[string]string) map[string
 }
 
 func isValidExtension(ext string) bool {
-	return len(ext) >= 2 && ext[0] == '.' && ext[len(ext)-1] != '.'
+	return len(ext) >= 2 && ext[0] == '.' && ext[len(ext)-1] != '.' && !strings.ContainsAny(ext, "/\\")
 }
 
 func validateResolveExtensions(log logger.Log, order []string) []string {
